@@ -9,6 +9,7 @@ import (
 	"fmt"
 	"math/big"
 	"strings"
+	"sync"
 
 	"github.com/decred/dcrd/dcrec/secp256k1/v4"
 	"github.com/libp2p/go-libp2p/core/crypto"
@@ -20,7 +21,7 @@ import (
 func init() {
 	register(stream{
 		name: "did",
-		rule: "keys of Ed25519, secp256k1 (native and ECDSA-typed), P-256, P-384, P-521 and RSA: FromPubKey → String → Parse → PubKey must give back an equal DID and an equal key, and DIDs of distinct keys differ; did:key strings carrying alternative encodings of the same key material (uncompressed and hybrid points, the other parity byte, off-curve x coordinates, wrong lengths, non-minimal or trailing DER, non-minimal varints, unsupported and unknown multicodec codes, other multibase prefixes, invalid base58 characters, missing prefix); the per-codec unmarshalling verdict is computed by the harness with the crypto libraries directly and given to the model as an oracle. Non-trivial = strings that pass the prefix test. Distinct = distinct protocol lines.",
+		rule: "keys of Ed25519, secp256k1 (native and ECDSA-typed), P-256, P-384, P-521 and RSA: FromPubKey → String → Parse → PubKey must give back an equal DID and an equal key, and DIDs of distinct keys differ; the same calls from 8 goroutines at once on distinct keys of one algorithm must agree with the sequential results (a sampled schedule test); did:key strings carrying alternative encodings of the same key material (uncompressed and hybrid points, the other parity byte, off-curve x coordinates, wrong lengths, non-minimal or trailing DER, non-minimal varints, unsupported and unknown multicodec codes, other multibase prefixes, invalid base58 characters, missing prefix); the per-codec unmarshalling verdict is computed by the harness with the crypto libraries directly and given to the model as an oracle. Non-trivial = strings that pass the prefix test. Distinct = distinct protocol lines.",
 		run:  runDidStream,
 		eval: evalDid,
 		cmp: func(line, g, m string) string {
@@ -156,6 +157,8 @@ func evalDid(line string) (out string, rd string) {
 		return "ok " + hx(raw), rd
 	case "go.did.roundtrip":
 		return didRoundTrip(f[1], f[2]), line
+	case "go.did.concurrent":
+		return didConcurrent(f[1]), line
 	}
 	return "bad-line", line
 }
@@ -242,6 +245,70 @@ func didRoundTrip(alg, i string) string {
 	return "ok"
 }
 
+// didConcurrent: FromPubKey / String / Parse / PubKey are functions of their argument — called from many
+// goroutines at once on distinct keys of one algorithm they must return what they return when called alone.
+func didConcurrent(alg string) string {
+	const nKeys, nGo, rounds = 6, 8, 3000
+	var pubs []crypto.PubKey
+	var want []did.DID
+	for i := 0; i < nKeys; i++ {
+		p, err := didKey(alg, fmt.Sprint("c", i))
+		if err != nil {
+			return "keygen: " + err.Error()
+		}
+		d, err := did.FromPubKey(p)
+		if err != nil {
+			return "FromPubKey: " + err.Error()
+		}
+		pubs = append(pubs, p)
+		want = append(want, d)
+	}
+	errs := make(chan string, nGo)
+	var wg sync.WaitGroup
+	for g := 0; g < nGo; g++ {
+		wg.Add(1)
+		go func(g int) {
+			defer wg.Done()
+			defer func() {
+				if r := recover(); r != nil {
+					errs <- fmt.Sprint("panic: ", r)
+				}
+			}()
+			for r := 0; r < rounds; r++ {
+				i := (g + r) % nKeys
+				d, err := did.FromPubKey(pubs[i])
+				if err != nil || d != want[i] {
+					errs <- "concurrent FromPubKey returned another key's DID"
+					return
+				}
+				if r%16 == 0 {
+					d2, err := did.Parse(d.String())
+					if err != nil || d2 != want[i] {
+						errs <- "concurrent String/Parse altered a DID"
+						return
+					}
+					if k, err := d2.PubKey(); err != nil || !sameKeyMaterial(k, pubs[i]) {
+						errs <- "concurrent PubKey returned another key"
+						return
+					}
+				}
+			}
+		}(g)
+	}
+	wg.Wait()
+	close(errs)
+	for e := range errs {
+		return e
+	}
+	return "ok"
+}
+
+func sameKeyMaterial(a, b crypto.PubKey) bool {
+	da, e1 := did.FromPubKey(a)
+	db, e2 := did.FromPubKey(b)
+	return e1 == nil && e2 == nil && da == db
+}
+
 func runDidStream(c *ctx) error {
 	algs := []string{"ed25519", "secp256k1", "secp256k1-ecdsa", "p256", "p384", "p521"}
 	nk := 6
@@ -255,6 +322,9 @@ func runDidStream(c *ctx) error {
 	}
 	c.emit("go.did.roundtrip secp256k1-ecdsa short", "did.roundtrip:secp256k1-ecdsa", true, "roundtrip:secp256k1-ecdsa-short")
 	c.emit("go.did.roundtrip rsa 0", "did.roundtrip:rsa", true, "roundtrip:rsa")
+	for _, a := range algs {
+		c.emit("go.did.concurrent "+a, "did.concurrent:"+a, true, "concurrent:"+a)
+	}
 	// strings: canonical and alternative encodings
 	var texts []string
 	add := func(code uint64, key []byte) { texts = append(texts, didText(code, key)) }
